@@ -3,6 +3,7 @@
 From Coq Require Import List Arith Bool NArith ZArith Lia.
 From Pike Require Import Model.LRU Model.Dispatcher Proofs.LRUProofs Proofs.DispatcherProofs.
 From Pike Require Proofs.LRUSpec.
+From Pike Require Model.Sys Model.Multi Proofs.MultiProofs.
 Import ListNotations.
 
 (** For every key type, every hash function, every configured size, every
@@ -92,4 +93,50 @@ Proof. unfold consts_ok; simpl; lia. Qed.
 Example C11_nonvacuous :
   resident (drun N.eqb (fun _ => 0%N) (new_dispatcher pike_dconsts 9)
               (map (@DGet N) [1;2;3;4;5;6;7;8;9;10]%N)) = 1.
+Proof. vm_compute. reflexivity. Qed.
+
+(** ** the bound for the cache as a whole (Model/Multi.v: the dispatcher
+    composed with one protocol state per key).  In every reachable state, for
+    every schedule of requests, completions, purges, restarts, clock steps and
+    store faults over all keys: a key has a resident entry exactly when the
+    dispatcher holds it ... *)
+Theorem C11_entry_resident_iff_held :
+  forall (K : Type) (keqb : K -> K -> bool), (forall a b, keqb a b = true <-> a = b) ->
+  forall (hash : K -> N) (c : dconsts), consts_ok c ->
+  forall S t0 h st0 ls m, (0 <= t0)%Z ->
+    Pike.Model.Multi.mrun keqb hash (Pike.Model.Multi.minit (new_dispatcher c S) t0 h st0) ls = Some m ->
+  forall k, Pike.Model.Multi.live keqb m k = Pike.Model.Multi.held keqb hash m k.
+Proof.
+  intros K keqb Hk hash c Hc S t0 h st0 ls m Ht H k.
+  exact (Pike.Proofs.MultiProofs.mi_couple keqb hash m
+           (Pike.Proofs.MultiProofs.minv_reachable keqb Hk hash _ _ t0 h st0 ls m (zone_count_pos c S Hc) Ht H) k).
+Qed.
+Print Assumptions C11_entry_resident_iff_held.
+
+(** ... and any set of distinct keys that all have a resident entry has at most
+    "effective size" members *)
+Theorem C11_resident_entries_bounded :
+  forall (K : Type) (keqb : K -> K -> bool), (forall a b, keqb a b = true <-> a = b) ->
+  forall (hash : K -> N) (c : dconsts), consts_ok c ->
+  forall S t0 h st0 ls m ks, (0 <= t0)%Z ->
+    Pike.Model.Multi.mrun keqb hash (Pike.Model.Multi.minit (new_dispatcher c S) t0 h st0) ls = Some m ->
+    NoDup ks -> (forall k, In k ks -> Pike.Model.Multi.live keqb m k = true) ->
+    (Z.of_nat (length ks) <= eff_size c S)%Z.
+Proof.
+  intros K keqb Hk hash c Hc S t0 h st0 ls m ks Ht H ND Hl.
+  exact (Pike.Proofs.MultiProofs.composed_bound keqb Hk hash c S t0 h st0 ls m ks Hc Ht H ND Hl).
+Qed.
+Print Assumptions C11_resident_entries_bounded.
+
+(** non-vacuity: size 8 = 8 shards of one slot; two keys of one shard, the
+    second lookup evicts the first key's entry, whose fetch is still in flight *)
+Example C11_composed_eviction :
+  let h := fun k : N => 0%N in
+  let c := {| Pike.Model.Sys.ch_outcome := Pike.Model.Sys.OFail; Pike.Model.Sys.ch_read_ok := true; Pike.Model.Sys.ch_write_ok := true |} in
+  option_map (fun m => (Pike.Model.Multi.live N.eqb m 1%N, Pike.Model.Multi.live N.eqb m 2%N,
+                        Pike.Model.Multi.held N.eqb h m 1%N, Pike.Model.Multi.held N.eqb h m 2%N))
+    (Pike.Model.Multi.mrun N.eqb h (Pike.Model.Multi.minit (new_dispatcher pike_dconsts 8) 1000 0 false)
+       [Pike.Model.Multi.MArrive 1%N false; Pike.Model.Multi.MRun 1%N 0 c; Pike.Model.Multi.MRun 1%N 0 c;
+        Pike.Model.Multi.MArrive 2%N false; Pike.Model.Multi.MRun 2%N 0 c])
+  = Some (false, true, false, true).
 Proof. vm_compute. reflexivity. Qed.
